@@ -722,6 +722,143 @@ Section Proofs.
     intros Hqs Ha HIa HIb. rewrite (ps_commutes_spec qs (pm a) (pm b) Hqs Ha HIa HIb).
     apply dense_commute_iff. rewrite !letters_length. reflexivity.
   Qed.
+
+  (* ----- D3: squares, inverses (P ** -1), qubit remapping ----- *)
+  Lemma zip_phase_self l : zip_phase l l = 0%Z.
+  Proof. induction l as [|x l IH]; simpl; [reflexivity|]. rewrite IH. destruct x; reflexivity. Qed.
+  Lemma zip_xor_self l : zip_xor l l = map (fun _ => pI) l.
+  Proof. induction l as [|x l IH]; simpl; [reflexivity|]. rewrite IH, pxor_self. reflexivity. Qed.
+  Lemma map_const_letters qs m : map (fun _ : pauli => pI) (letters qs m) = map (fun _ : qid => pI) qs.
+  Proof. unfold letters. rewrite map_map. reflexivity. Qed.
+  Theorem ps_same_letters_mul qs c c' m :
+    mmul O (ps_matrix O qs (mkP c m)) (ps_matrix O qs (mkP c' m)) = mscale O (c * c') (id_matrix qs).
+  Proof.
+    unfold ps_matrix, id_matrix. simpl. rewrite dense_mul_matrix by reflexivity.
+    rewrite zip_phase_self, zip_xor_self, map_const_letters, dense_matrix_scale. apply dense_matrix_coef_ext. rewrite ipow_0. ring.
+  Qed.
+  (* P . P = c^2 I;  (c^-1 letters) is the two-sided inverse of (c letters) *)
+  Theorem ps_square qs (a : pstr) :
+    mmul O (ps_matrix O qs a) (ps_matrix O qs a) = mscale O (coef a * coef a) (id_matrix qs).
+  Proof. destruct a as [c m]. apply ps_same_letters_mul. Qed.
+  Theorem ps_inverse qs c cinv m : c * cinv = z1 ->
+    mmul O (ps_matrix O qs (mkP cinv m)) (ps_matrix O qs (mkP c m)) = id_matrix qs
+    /\ mmul O (ps_matrix O qs (mkP c m)) (ps_matrix O qs (mkP cinv m)) = id_matrix qs.
+  Proof.
+    intros H. rewrite !ps_same_letters_mul. unfold id_matrix. rewrite !dense_matrix_scale.
+    split; apply dense_matrix_coef_ext; [transitivity (c * cinv); [ring|]|transitivity (c * cinv); [ring|]]; rewrite H; ring.
+  Qed.
+
+  Lemma pm_map_keys_get f : forall m m' q q', pm_map_keys f m = Some m' -> assoc f q = Some q' ->
+    (forall k, In k (pm_keys m) -> assoc f k = Some q' -> k = q) ->
+    pm_get m' q' = pm_get m q.
+  Proof.
+    induction m as [|[k p] m IH]; intros m' q q' Hm Hq Hinj; simpl in Hm.
+    - injection Hm as <-. reflexivity.
+    - destruct (assoc f k) as [k'|] eqn:Hk; [|discriminate].
+      destruct (pm_map_keys f m) as [r'|] eqn:Hr; [|discriminate]. injection Hm as <-. simpl.
+      destruct (Z.eqb_spec k' q') as [->|Hne].
+      + rewrite (Hinj k (or_introl eq_refl) Hk), Z.eqb_refl. reflexivity.
+      + destruct (Z.eqb_spec k q) as [->|Hkq]; [congruence|].
+        apply (IH r' q q' eq_refl Hq). intros k0 Hk0. apply Hinj. right. exact Hk0.
+  Qed.
+  (* map_qubits: the matrix over the renamed register is the matrix over the old one (renaming injective where it matters) *)
+  Theorem ps_map_qubits_sound f qs qs' (a a' : pstr) :
+    ps_map_qubits f a = Some a' -> map (assoc f) qs = map Some qs' ->
+    (forall k q, In k (pm_keys (pm a)) -> In q qs -> assoc f k = assoc f q -> k = q) ->
+    ps_matrix O qs' a' = ps_matrix O qs a.
+  Proof.
+    unfold ps_map_qubits. destruct (pm_map_keys f (pm a)) as [m'|] eqn:Hm; [|discriminate].
+    intros Ha Hqs Hinj. injection Ha as <-. unfold ps_matrix. simpl. f_equal. unfold letters.
+    revert qs' Hqs. induction qs as [|q qs IH]; intros [|q' qs'] Hqs; try discriminate; [reflexivity|].
+    simpl in Hqs. injection Hqs as Hq Hqs. simpl. f_equal.
+    - apply (pm_map_keys_get f (pm a) m' q q' Hm Hq). intros k Hk Hkq. apply Hinj; [exact Hk|left; reflexivity|congruence].
+    - apply IH; [|exact Hqs]. intros k q0 Hk Hq0. apply Hinj; [exact Hk|right; exact Hq0].
+  Qed.
+
+  (* ----- dense strings ----- *)
+  Lemma pm_get_of_dense_notin qs l q : ~ In q qs -> pm_get (pm_of_dense qs l) q = pI.
+  Proof.
+    revert l. induction qs as [|k qs IH]; intros [|x l] H; simpl; try reflexivity.
+    unfold pm_of_dense. simpl. destruct (is_pI x); simpl.
+    - apply IH. intros Hin. apply H. right. exact Hin.
+    - destruct (Z.eqb_spec k q) as [->|Hne]; [exfalso; apply H; left; reflexivity|]. apply IH. intros Hin. apply H. right. exact Hin.
+  Qed.
+  Lemma letters_of_dense qs l : NoDup qs -> length qs = length l -> letters qs (pm_of_dense qs l) = l.
+  Proof.
+    revert l. induction qs as [|k qs IH]; intros [|x l] Hnd Hlen; try discriminate; [reflexivity|].
+    inversion Hnd as [|? ? Hk Hnd']. subst. simpl in Hlen. injection Hlen as Hlen.
+    unfold letters, pm_of_dense. simpl. destruct (is_pI x) eqn:Hx; simpl.
+    - apply is_pI_true in Hx. subst x. f_equal; [apply pm_get_of_dense_notin; exact Hk|apply IH; assumption].
+    - rewrite Z.eqb_refl. f_equal. transitivity (letters qs (pm_of_dense qs l)); [|apply IH; assumption].
+      unfold letters. apply map_ext_in. intros q Hq.
+      destruct (Z.eqb_spec k q) as [->|Hne]; [contradiction|reflexivity].
+  Qed.
+  (* DensePauliString.on / sparse, PauliString.dense: same matrix over the given qubit order *)
+  Theorem ds_on_sound qs (d : dstr) (p : pstr) : NoDup qs -> ds_on qs d = Some p -> ps_matrix O qs p = ds_matrix O d.
+  Proof.
+    intros Hnd. unfold ds_on. destruct (Nat.eqb_spec (length qs) (length (dmask d))) as [Hlen|]; [|discriminate].
+    intros H. injection H as <-. unfold ps_matrix, ds_matrix. simpl. rewrite letters_of_dense by assumption. reflexivity.
+  Qed.
+  Theorem ps_dense_sound qs (a : pstr) (d : dstr) : ps_dense qs a = Some d -> ds_matrix O d = ps_matrix O qs a.
+  Proof. unfold ps_dense. destruct (forallb _ _); [|discriminate]. intros H. injection H as <-. reflexivity. Qed.
+
+  Lemma pad_length n l : length (pad n l) = Nat.max n (length l).
+  Proof. revert l. induction n as [|n IH]; intros [|x l]; simpl; try reflexivity; rewrite IH; simpl; lia. Qed.
+  Lemma zip_xor_pad_nil a : zip_xor a (pad (length a) []) = a.
+  Proof. induction a as [|x a IH]; simpl; [reflexivity|]. rewrite pxor_I_r, IH. reflexivity. Qed.
+  Lemma zip_xor_nil_pad b : zip_xor (pad (length b) []) b = b.
+  Proof. induction b as [|y b IH]; simpl; [reflexivity|]. rewrite pxor_I_l, IH. reflexivity. Qed.
+  Lemma zip_phase_pad_nil a : zip_phase a (pad (length a) []) = 0%Z.
+  Proof. induction a as [|x a IH]; simpl; [reflexivity|]. rewrite mul_phase_I_r, IH. reflexivity. Qed.
+  Lemma zip_phase_nil_pad b : zip_phase (pad (length b) []) b = 0%Z.
+  Proof. induction b as [|y b IH]; simpl; [reflexivity|]. rewrite IH. destruct y; reflexivity. Qed.
+  Lemma pad_0 l : pad 0 l = l. Proof. destruct l; reflexivity. Qed.
+  Lemma mask_xor_pad : forall a b, mask_xor a b = zip_xor (pad (length b) a) (pad (length a) b).
+  Proof.
+    induction a as [|x a IH]; intros b.
+    - simpl length. rewrite pad_0, zip_xor_nil_pad. reflexivity.
+    - destruct b as [|y b].
+      + simpl length. rewrite pad_0. change (S (length a)) with (length (x :: a)). rewrite zip_xor_pad_nil. reflexivity.
+      + simpl. rewrite IH. reflexivity.
+  Qed.
+  Lemma vphase_pad : forall a b, vphase a b = zip_phase (pad (length b) a) (pad (length a) b).
+  Proof.
+    induction a as [|x a IH]; intros b.
+    - simpl length. rewrite pad_0, zip_phase_nil_pad. reflexivity.
+    - destruct b as [|y b].
+      + simpl length. rewrite pad_0. change (S (length a)) with (length (x :: a)). rewrite zip_phase_pad_nil. reflexivity.
+      + simpl. rewrite IH, vphase1_mul. reflexivity.
+  Qed.
+  (* DensePauliString.__mul__: masks of different length are zero-padded, the shorter operand acts as ... (x) I *)
+  Theorem dense_mul_sound (a b : dstr) :
+    ds_matrix O (ds_mul O a b)
+    = mmul O (dense_matrix O (dcoef a) (pad (length (dmask b)) (dmask a)))
+             (dense_matrix O (dcoef b) (pad (length (dmask a)) (dmask b))).
+  Proof.
+    unfold ds_matrix, ds_mul. simpl. rewrite dense_mul_matrix by (rewrite !pad_length; lia).
+    rewrite ipow_land, mask_xor_pad, vphase_pad. reflexivity.
+  Qed.
+  Lemma pad_same n l : n = length l -> pad n l = l.
+  Proof. intros ->. induction l as [|x l IH]; simpl; [reflexivity|]. rewrite IH. reflexivity. Qed.
+  Corollary dense_mul_sound_eqlen (a b : dstr) : length (dmask a) = length (dmask b) ->
+    ds_matrix O (ds_mul O a b) = mmul O (ds_matrix O a) (ds_matrix O b).
+  Proof. intros H. rewrite dense_mul_sound, !pad_same by congruence. reflexivity. Qed.
+  Lemma pad_short : forall n l, (n <= length l)%nat -> pad n l = l.
+  Proof. induction n as [|n IH]; intros [|x l] H; simpl in *; try reflexivity; [lia|]. rewrite IH by lia. reflexivity. Qed.
+  (* MutableDensePauliString.__imul__ *)
+  Theorem dense_imul_sound (a b r : dstr) : ds_imul O a b = Some r ->
+    ds_matrix O r = mmul O (ds_matrix O a) (dense_matrix O (dcoef b) (pad (length (dmask a)) (dmask b))).
+  Proof.
+    unfold ds_imul. destruct (Nat.ltb_spec (length (dmask a)) (length (dmask b))) as [|Hle]; [discriminate|].
+    intros H. injection H as <-. unfold ds_matrix. simpl.
+    rewrite <- (pad_short (length (dmask b)) (dmask a) Hle) at 2.
+    rewrite dense_mul_matrix by (rewrite !pad_length; lia).
+    rewrite ipow_land, mask_xor_pad, vphase_pad. apply dense_matrix_coef_ext. ring.
+  Qed.
+  Theorem ds_scale_sound (a : dstr) c : ds_matrix O (ds_scale O a c) = mscale O c (ds_matrix O a).
+  Proof. unfold ds_matrix, ds_scale. simpl. rewrite dense_matrix_scale. apply dense_matrix_coef_ext. ring. Qed.
+  Theorem ds_neg_sound (a : dstr) : ds_matrix O (ds_neg O a) = mscale O (- z1) (ds_matrix O a).
+  Proof. unfold ds_matrix, ds_neg. simpl. rewrite dense_matrix_scale. apply dense_matrix_coef_ext. ring. Qed.
 End Proofs.
 
 (* ---------- the executable comparison instance Q(i) satisfies the laws the theorems assume ---------- *)
